@@ -130,6 +130,8 @@ type realisation struct {
 	// base block's writes only); readOthers: the block also reads accounts and keys it does not write
 	reopenEarly bool
 	readOthers  bool
+	// suicide: balance writes to zero (in all three blocks) are made with Suiside
+	suicide bool
 }
 
 func rootFor(base, w *netWrites, r *realisation) (string, error) {
@@ -151,7 +153,7 @@ func rootFor(base, w *netWrites, r *realisation) (string, error) {
 	l, closeFn := open()
 	h := uint64(1)
 	if r.pre != nil && len(r.pre.ops()) > 0 {
-		applyWrites(l, r.pre.ops())
+		applyWrites(l, withSuicide(r.pre.ops(), r.suicide))
 		l.Finalise(true)
 		accounts, root := l.FlushDirtyData()
 		if err := l.Commit(h, accounts, root); err != nil {
@@ -164,7 +166,7 @@ func rootFor(base, w *netWrites, r *realisation) (string, error) {
 			l, closeFn = open()
 		}
 	}
-	applyWrites(l, base.ops())
+	applyWrites(l, withSuicide(base.ops(), r.suicide))
 	l.Finalise(true)
 	accounts, root := l.FlushDirtyData()
 	lag := r.lag && r.cache == 0 && !r.reopen
@@ -221,6 +223,7 @@ func rootFor(base, w *netWrites, r *realisation) (string, error) {
 	for i, idx := range r.order {
 		o := ops[idx]
 		o.addSub = r.balAddSub
+		o.suicide = r.suicide
 		applyWrites(l, []lwrite{o})
 		if r.txSplit > 0 && i+1 == r.txSplit {
 			l.Finalise(true)
@@ -237,6 +240,13 @@ func rootFor(base, w *netWrites, r *realisation) (string, error) {
 		}
 	}
 	return root2.String(), nil
+}
+
+func withSuicide(ops []lwrite, on bool) []lwrite {
+	for i := range ops {
+		ops[i].suicide = on
+	}
+	return ops
 }
 
 func drawNet(t *rapid.T, label string, minKeys int) *netWrites {
@@ -260,7 +270,7 @@ func drawNet(t *rapid.T, label string, minKeys int) *netWrites {
 	}
 	for a := 0; a < 3; a++ {
 		if rapid.IntRange(0, 2).Draw(t, label+"-hasbal") == 0 {
-			w.balance[a] = uint64(rapid.IntRange(0, 6).Draw(t, label+"-bal"))
+			w.balance[a] = uint64(rapid.SampledFrom([]int{0, 0, 0, 1, 2, 3, 4, 5, 6}).Draw(t, label+"-bal"))
 		}
 		if rapid.IntRange(0, 3).Draw(t, label+"-hasnonce") == 0 {
 			w.nonce[a] = uint64(rapid.IntRange(0, 6).Draw(t, label+"-nonce"))
@@ -284,6 +294,7 @@ func drawRealisation(t *rapid.T, n int, label string) *realisation {
 	r.balAddSub = rapid.Bool().Draw(t, label+"-addsub")
 	r.reopenEarly = rapid.Bool().Draw(t, label+"-reopenEarly")
 	r.readOthers = rapid.Bool().Draw(t, label+"-readOthers")
+	r.suicide = rapid.Bool().Draw(t, label+"-suicide")
 	if n > 1 {
 		r.txSplit = rapid.IntRange(0, n-1).Draw(t, label+"-split")
 	}
